@@ -31,6 +31,8 @@ func init() {
 			{"C14.R12", "q", "index file names: writers and the start-up parser agree on the columns", c14r12},
 			{"C14.R13", "q", "start-up acceptance of hint files (sequence, coverage)", c14r13},
 			{"C14.R14", "q", "split dump discipline (needDump, file before buffer release, id bookkeeping)", c14r14},
+			{"C14.R15", "q", "sort/heap interface methods of the dump sorter and the merge heap", c14r15},
+			{"C14.R16", "q", "flattened sparse index = every filled slot", c14r16},
 		},
 	})
 }
